@@ -33,6 +33,18 @@ def run_jsep(ctx, focus):
         # walks biased to contain a rollback: keep those that have one
         walks = [p for p in walks if any(a.get("type") == "rollback" for _, a, _ in p)]
     paths += walks
+    if quick:
+        # quick tier: a seeded sample of the cover, bounded in API calls (the thorough tier replays all of it)
+        budget = {"C01": 12000, "C02": 12000}.get(focus, 16000)
+        ctx.rng.shuffle(paths)
+        total, kept = 0, []
+        for p in paths:
+            if total >= budget:
+                break
+            kept.append(p)
+            total += len(p)
+        ctx.cov["quick_sample_of_cover"] = {"paths_kept": len(kept), "paths_in_cover": len(paths)}
+        paths = kept
     beh = vlib.behaviours_from_paths(paths)
     ctx.log("%d behaviours (%d steps)" % (len(beh), sum(len(b["steps"]) for b in beh)))
     infile = vlib.write_json(os.path.join(ctx.work, "behaviours.json"), beh)
